@@ -56,6 +56,15 @@ Definition creates_exclusive (funcs : list (string * list gev)) (fs : list strin
                     | None => false
                     end) fs.
 
+(* a function that obtained a name from a name-reserving function (newTempFile) keeps the reservation:
+   it neither removes/renames a file nor creates one non-exclusively (the reserved, exclusively created
+   file itself is what it hands on) *)
+Definition reservations_kept (funcs : list (string * list gev)) (fs : list string) : bool :=
+  forallb (fun f => match assoc f funcs with
+                    | Some b => forallb (fun e => match e with GRelease => false | GCreate x => x | GBad _ => false | _ => true end) b
+                    | None => true
+                    end) fs.
+
 (* between starting goroutines and the WaitGroup barrier the parent touches none of the variables
    handed to them; goroutine and parent both appear in the table as GBarrier variables *)
 Fixpoint barrier_scan (tab : list (string * gkind)) (spawned waited : bool) (l : list gev) : bool :=
